@@ -216,13 +216,13 @@ pub fn parse_costs(t: &[&str]) -> Vec<BrokerCost> {
 }
 
 /// everything a client of the broker can observe, plus the exchange state behind the client
-pub fn observe<C: UistClient + StateView>(b: &UistBroker<C>, id: BacktestId) -> String {
+pub fn observe<C: UistClient + StateView>(b: &UistBroker<C>, id: BacktestId, universe: &[String]) -> String {
     let pos = b.get_positions();
     let st = match b.get_broker_state() {
         BrokerState::Ready => "Ready",
         BrokerState::Failed => "Failed",
     };
-    let per: Vec<String> = UNIVERSE
+    let per: Vec<String> = universe
         .iter()
         .map(|s| {
             format!(
@@ -273,6 +273,15 @@ fn resolve<C: UistClient + StateView>(b: &UistBroker<C>, tok: &str) -> f64 {
     if tok.starts_with('f') && tok[1..].chars().all(|c| c.is_ascii_digit()) {
         return pf(tok);
     }
+    // the balance moved by one unit in the last place
+    if tok == "cash*up" || tok == "cash*down" {
+        let c = b.get_cash_balance();
+        if c.is_finite() && c != 0.0 {
+            let up = (tok == "cash*up") == (c > 0.0);
+            return f64::from_bits(if up { c.to_bits() + 1 } else { c.to_bits() - 1 });
+        }
+        return c;
+    }
     // expr[:sym][+f<bits>]
     let (head, add) = match tok.split_once('+') {
         Some((h, a)) => (h, pf(a)),
@@ -304,10 +313,14 @@ pub fn gen(seed: u64, cases: usize, flavour: &str, path: &str) {
     for _ in 0..cases {
         g.line("RESET");
         g.stats.bump("cases");
+        // one case in twelve leaves the ordinary regime: a long history over a long dataset, a dozen symbols, or
+        // magnitudes far from 1 (powers of two, which keep the whole-share grid exact)
+        let stress = if g.rng.chance(1, 12) { 1 + g.rng.below(3) } else if g.rng.chance(1, 150) { 4 } else { 0 };
+        g.stats.bump(match stress { 1 => "stress_long_history", 2 => "stress_many_symbols", 3 => "stress_magnitudes", 4 => "stress_order_burst", _ => "ordinary_regime" });
         // the reqwest client over a real socket only on the whole-share dyadic grid: serde_json (without its
         // `float_roundtrip` feature) may move a long binary64 literal by one ulp, which C20 allows (1e-12) but which
         // makes bit-level decisions (cash == cost) differ from the in-process run; short decimals travel exactly
-        let client = if whole && g.rng.chance(1, 6) { "http" } else { *g.rng.pick(&["test", "test", "eager", "lazy", "slow"]) };
+        let client = if whole && stress != 3 && g.rng.chance(1, 6) { "http" } else { *g.rng.pick(&["test", "test", "eager", "lazy", "slow"]) };
         g.line(&format!("CLIENT {client}"));
         g.stats.bump(&format!("client_{client}"));
         let nc = g.rng.below(4);
@@ -321,58 +334,77 @@ pub fn gen(seed: u64, cases: usize, flavour: &str, path: &str) {
         }
         g.line(&format!("COSTS {nc}{cl}"));
         g.stats.bump(&format!("cost_list_len_{nc}"));
-        let nd = 3 + g.rng.below(10) as i64;
-        g.line(&format!("DATA D 3 {}", SYMS.join(" ")));
+        let wide: Vec<String> = (0..12).map(|i| format!("S{i:02}")).collect();
+        let syms: Vec<&str> = if stress == 2 { wide.iter().map(|x| x.as_str()).collect() } else { SYMS.to_vec() };
+        // (price scale, cash scale): the last pair makes share counts of 1e10 and more
+        let (mag, cmag): (f64, f64) = if stress == 3 { *g.rng.pick(&[(1048576.0, 1048576.0), (1.0 / 128.0, 1.0 / 128.0), (1073741824.0, 1073741824.0), (1.0 / 16777216.0, 16.0)]) } else { (1.0, 1.0) };
+        // the clock in epoch milliseconds, a quarter of a second apart
+        let (date0, date_step) = if stress == 3 && g.rng.chance(1, 2) { (1_700_000_000_000i64, 250i64) } else { (100i64, 1i64) };
+        let nd = if stress == 1 { 30 + g.rng.below(40) as i64 } else { 3 + g.rng.below(10) as i64 };
+        g.line(&format!("DATA D {} {}", syms.len(), syms.join(" ")));
         let jump = g.rng.chance(1, 3) || liqf;
         let flat_prices = g.rng.chance(1, 6);
-        let mut base_px = [0.0f64; 3];
+        let mut base_px = [0.0f64; 12];
         for d in 0..nd {
             let mut l = String::new();
             let mut nq = 0;
-            for (si, s) in SYMS.iter().enumerate() {
+            for (si, s) in syms.iter().enumerate() {
                 if d == 0 || !g.rng.chance(1, 5) {
                     let top = if jump && d >= 2 && g.rng.chance(1, 2) { 400 } else { 100 };
-                    let mut bid = if whole { (g.rng.below(top) + 1) as f64 * 0.5 } else { (g.rng.below(top * 100) + 1) as f64 * 0.013 };
+                    let mut bid = (if whole { (g.rng.below(top) + 1) as f64 * 0.5 } else { (g.rng.below(top * 100) + 1) as f64 * 0.013 }) * mag;
                     if flat_prices {
                         if d == 0 {
                             base_px[si] = bid;
                         }
                         bid = base_px[si];
                     }
-                    let ask = if flat_prices { bid } else { bid + g.rng.below(3) as f64 * 0.5 };
+                    let ask = if flat_prices { bid } else { bid + g.rng.below(3) as f64 * 0.5 * mag };
                     l += &format!(" {} {} {}", s, fb(bid), fb(ask));
                     nq += 1;
                 } else {
                     g.stats.bump("quote_gap");
                 }
             }
-            g.line(&format!("Q D {} {}{}", 100 + d, nq, l));
+            g.line(&format!("Q D {} {}{}", date0 + date_step * d, nq, l));
         }
         g.line("BUILD");
         if (liqf || difff) && g.rng.chance(3, 4) {
             // prelude: fund the broker and open one to three positions, so that liquidation and
             // rebalancing have something to work on
-            let d0 = *g.rng.pick(&[1000.0, 100000.0, 12345.5]);
+            let d0 = *g.rng.pick(&[1000.0, 100000.0, 12345.5]) * cmag;
             g.line(&format!("DEP {}", fb(d0)));
-            let np = 1 + g.rng.below(3);
+            let np = 1 + g.rng.below(if stress == 2 { 9 } else { 3 });
             for si in 0..np {
                 let sh = if whole { *g.rng.pick(&[1.0, 10.0, 37.0, 100.0]) } else { *g.rng.pick(&[1.0, 10.0, 37.25, 100.0]) };
-                g.line(&format!("SEND 1 {} {} -", SYMS[si as usize], fb(sh)));
+                g.line(&format!("SEND 1 {} {} -", syms[si as usize], fb(sh)));
             }
             g.line("CHECK");
             if liqf && g.rng.chance(1, 2) {
                 // spend what is left at the current ask: a price jump at execution drives cash negative
-                g.line(&format!("SEND 1 {} afford:{} -", SYMS[0], SYMS[0]));
+                g.line(&format!("SEND 1 {} afford:{} -", syms[0], syms[0]));
             }
             g.line("CHECK");
             g.stats.bump("prelude_positions");
         }
-        let len = 5 + g.rng.below(40);
+        if stress == 4 {
+            // more than 256 / 1024 orders between two reconciliations (a short case: every later line prints the whole log)
+            g.line(&format!("DEP {}", fb(10000000.0)));
+            let n = *g.rng.pick(&[257u64, 1025, 1100]);
+            for _ in 0..n {
+                g.line(&format!("~SEND 1 {} {} -", syms[0], fb(1.0)));
+            }
+            g.line("GET");
+            g.line("CHECK");
+            g.line("CHECK");
+            g.stats.bump("stress_more_than_1024_orders_between_checks");
+        }
+        let len = if stress == 1 { 100 + g.rng.below(150) } else if stress == 4 { 3 + g.rng.below(8) } else { 5 + g.rng.below(40) };
         for _ in 0..len {
             let k = g.rng.below(if liqf || difff { 16 } else { 13 });
             match k {
                 0 | 1 => {
-                    let x = *g.rng.pick(&[0.0, 100.0, 1000.0, 100000.0, 12345.5]);
+                    // round amounts, and (off the whole-share grid) decimal fractions that binary64 only approximates
+                    let x = if !whole && g.rng.chance(1, 8) { *g.rng.pick(&[0.3, 0.7, 0.1, 1.1]) } else { *g.rng.pick(&[0.0, 100.0, 1000.0, 100000.0, 12345.5]) * cmag };
                     g.line(&format!("DEP {}", fb(x)));
                     g.stats.bump("DEP");
                 }
@@ -380,26 +412,28 @@ pub fn gen(seed: u64, cases: usize, flavour: &str, path: &str) {
                     // whole balance, just above it (0.5, 0.004, 0.001, 1e-9), just below it, a fixed amount, half-way to liquidation value
                     let e = *g.rng.pick(&["cash", "cash+f4602678819172646912", "f4632233691727265792", "mid",
                         "cash+f4571261708172110332", "cash+f4562254508917369340", "cash+f4472406533629990549", "cash+f13785626545772145148"]);
+                    // 0.1, 0.2 (after deposits of 0.3 the balance is a few units in the last place away from them)
+                    let e = if !whole && g.rng.chance(1, 6) { *g.rng.pick(&["f4591870180066957722", "f4596373779694328218", "cash*up", "cash*down"]) } else { e };
                     g.line(&format!("WD {e}"));
                     g.stats.bump("WD");
                 }
                 3..=5 => {
                     let t = if g.rng.chance(1, 6) { 2 + g.rng.below(4) } else { g.rng.below(2) };
-                    let sym = if g.rng.chance(1, 30) { "ZZZ" } else { *g.rng.pick(&SYMS) };
+                    let sym = if g.rng.chance(1, 30) { "ZZZ" } else { *g.rng.pick(&syms) };
                     let sh = match g.rng.below(9) {
                         0 => fb(0.0),
                         1 => fb(1.0),
                         2 => fb(10.0),
                         3 => fb(100.0),
                         4 => fb(1000.0),
-                        5 => if whole { fb(37.0) } else { fb(37.25) },
+                        5 => if whole { fb(37.0) } else if g.rng.chance(1, 3) { fb(*g.rng.pick(&[1e-16, 4e-9, 1.123456789])) } else { fb(37.25) },
                         6 => format!("held:{sym}"),
                         7 => format!("held:{sym}+{}", fb(1.0)),
                         // cash / ask (cost = cash exactly, fractional shares) or its floor (whole shares; on the
                         // dyadic grid the cost still equals cash whenever the ask divides it)
                         _ => if !whole && g.rng.chance(1, 2) { format!("exact:{sym}") } else { format!("afford:{sym}") },
                     };
-                    let px = if t < 2 { "-".to_string() } else { fb(g.rng.below(100) as f64 * 0.5) };
+                    let px = if t < 2 { "-".to_string() } else { fb(g.rng.below(100) as f64 * 0.5 * mag) };
                     g.line(&format!("SEND {t} {sym} {sh} {px}"));
                     g.stats.bump(&format!("SEND_type_{t}"));
                 }
@@ -412,7 +446,7 @@ pub fn gen(seed: u64, cases: usize, flavour: &str, path: &str) {
                         "cash+f4562254508917369340", "liq+f4562254508917369340", "liq+f13785626545772145148"]);
                     // exactly the value of one position at its last bid (the walk then ends on a whole-position sale), or just off it
                     let e = if g.rng.chance(1, 5) {
-                        let sym = *g.rng.pick(&SYMS);
+                        let sym = *g.rng.pick(&syms);
                         match g.rng.below(3) { 0 => format!("pv:{sym}"), 1 => format!("pv:{sym}+{}", fb(1.0)), _ => format!("pv:{sym}+{}", fb(-0.5)) }
                     } else {
                         e.to_string()
@@ -421,11 +455,11 @@ pub fn gen(seed: u64, cases: usize, flavour: &str, path: &str) {
                     g.stats.bump("LIQ");
                 }
                 10 | 15 => {
-                    let n = 1 + g.rng.below(4);
+                    let n = 1 + g.rng.below(if stress == 2 { 10 } else { 4 });
                     let mut l = String::new();
                     let mut used: Vec<&str> = Vec::new();
                     for _ in 0..n {
-                        let s = if g.rng.chance(1, 6) { "ZZZ" } else { *g.rng.pick(&SYMS) };
+                        let s = if g.rng.chance(1, 6) { "ZZZ" } else { *g.rng.pick(&syms) };
                         if used.contains(&s) {
                             continue;
                         }
@@ -458,9 +492,13 @@ pub fn gen(seed: u64, cases: usize, flavour: &str, path: &str) {
     g.finish();
 }
 
-fn run_case<C: UistClient + StateView>(brkr: &mut UistBroker<C>, id: BacktestId, lines: &[String], out: &mut Out) {
+fn run_case<C: UistClient + StateView>(brkr: &mut UistBroker<C>, id: BacktestId, lines: &[String], out: &mut Out, universe: &[String]) {
     let mut last_diff: Vec<Order> = Vec::new();
     for line in lines {
+        // `~OP ...`: the operation is performed as usual but only its event is printed, not the whole observation
+        // (a burst of a thousand orders would otherwise print the growing buffer a thousand times)
+        let quiet = line.starts_with('~');
+        let line = &line[if quiet { 1 } else { 0 }..].to_string();
         let t: Vec<&str> = line.split(' ').filter(|x| !x.is_empty()).collect();
         let (ann, ev): (String, String) = match t[0] {
             "DEP" => {
@@ -565,7 +603,11 @@ fn run_case<C: UistClient + StateView>(brkr: &mut UistBroker<C>, id: BacktestId,
             "GET" => ("GET".into(), "get".into()),
             _ => panic!("bad op line: {line}"),
         };
-        let obs = observe(brkr, id);
+        if quiet {
+            out.emit(&format!("~{ann}"), &format!("EV {ev}"));
+            continue;
+        }
+        let obs = observe(brkr, id, universe);
         // positions order (hash iteration order of the holdings map after the operation)
         let w = obs.rsplit(" ; W ").next().unwrap().to_string();
         let ann = if ann.contains(" @ ") { format!("{ann} ; W {w}") } else { format!("{ann} @ W {w}") };
@@ -585,13 +627,21 @@ pub fn run(ops: &str, annot: &str, imp: &str) {
         let mut client = "test".to_string();
         let mut costs: Vec<BrokerCost> = Vec::new();
         let mut src = Penelope::new();
+        let mut universe: Vec<String> = UNIVERSE.iter().map(|x| x.to_string()).collect();
         let mut built = false;
         while i < lines.len() && !lines[i].starts_with("RESET") && !built {
             let t: Vec<&str> = lines[i].split(' ').filter(|x| !x.is_empty()).collect();
             match t[0] {
                 "CLIENT" => client = t[1].to_string(),
                 "COSTS" => costs = parse_costs(&t[1..]),
-                "DATA" => src = Penelope::new(),
+                "DATA" => {
+                    src = Penelope::new();
+                    // the symbols a case can mention: those of its DATA line plus the never-quoted ZZZ
+                    universe = t[3..].iter().map(|x| x.to_string()).collect();
+                    if !universe.iter().any(|x| x == "ZZZ") {
+                        universe.push("ZZZ".to_string());
+                    }
+                }
                 "Q" => {
                     let date = pi(t[2]);
                     let nq = pu(t[3]) as usize;
@@ -631,19 +681,19 @@ pub fn run(ops: &str, annot: &str, imp: &str) {
                 let id = block_on(c.init("D".to_string())).unwrap().backtest_id;
                 let mut b = block_on(UistBrokerBuilder::new().with_client(c, id).with_trade_costs(costs).build());
                 out.stats.bump("cases_over_http");
-                run_case(&mut b, id, body, &mut out);
+                run_case(&mut b, id, body, &mut out, &universe);
             }
             "test" => {
                 let mut c = TestClient::single("D", src);
                 let id = block_on(c.init("D".to_string())).unwrap().backtest_id;
                 let mut b = block_on(UistBrokerBuilder::new().with_client(c, id).with_trade_costs(costs).build());
-                run_case(&mut b, id, body, &mut out);
+                run_case(&mut b, id, body, &mut out, &universe);
             }
             k => {
                 let mut c = Wrap::new(src, k);
                 let id = block_on(c.init("D".to_string())).unwrap().backtest_id;
                 let mut b = block_on(UistBrokerBuilder::new().with_client(c, id).with_trade_costs(costs).build());
-                run_case(&mut b, id, body, &mut out);
+                run_case(&mut b, id, body, &mut out, &universe);
             }
         }
         i = j;
